@@ -24,6 +24,7 @@ RULE = ("random problems (n 1..12, p 1..3, q 0..2, default / custom-Normal K, no
         "variance slots or un-capping lambda_K in the closed form moves ll by > 100x the tolerance (measured)")
 R1, R2, R3 = "kernel.exact=closed_form", "api.float~closed_form", "api.finite"
 R4 = "kernel.buffers(exact twin)=Lean Q model"
+R5 = "helper.mu,Lambda=Kernel.slotsImp"
 
 
 def plan(ctx):
@@ -102,6 +103,39 @@ def buffers_vs_lean(ctx, g, hx, row, inp):
                      "work arrays of the exact-mode kernel twin must equal the Lean model's B, Binv, A, Ainv, b as rationals")
 
 
+def slots_vs_lean(ctx, g, pr, c, hx):
+    """R5: the mu / Lambda arrays the constructor fills vs the Lean model of its index arithmetic (`slotsImp`), fed with
+    the declared prior numbers converted by the harness (tolerance 4 ulp: unit conversions may round differently)"""
+    if not (hasattr(hx, "mu") and hasattr(hx, "Lambda")):
+        ctx.count("slots_unavailable")
+        return
+    mu, sig = c["mu"], c["sig_lin"]
+    fcm = pr.desc["K"]["kind"] == "fcm"
+    q, p = pr.q, pr.p
+    var = [0.0 if s_ is None else float(s_) ** 2 for s_ in sig]
+    m = ctx.model({"op": "kernel.slots", "K": core.bits_list([mu[0], var[0]]), "v0": core.bits_list([mu[1], var[1]]),
+                   "offMu": core.bits_list(mu[2:2 + q]), "offVar": core.bits_list(var[2:2 + q]),
+                   "trMu": core.bits_list(mu[2 + q:]), "trVar": core.bits_list(var[2 + q:])})
+    want_mu = [float(core.rat(v)) for v in m["muImp"]]
+    want_lam = [float(core.rat(v)) for v in m["lamImp"]]
+    got_mu = [float(v) for v in np.asarray(hx.mu)]
+    got_lam = [float(v) for v in np.asarray(hx.Lambda)]
+    ctx.evaluated(R5, (g["index"], "slots") if (q > 0 or p > 1) else None)
+    k = 1 + p + q
+    bad = []
+    if len(got_mu) < k or len(got_lam) < k:
+        bad.append("arrays shorter than n_linear")
+    else:
+        for j in range(k):
+            if abs(got_mu[j] - want_mu[j]) > 1e-15 * abs(want_mu[j]):
+                bad.append(f"mu[{j}]={got_mu[j]} want {want_mu[j]}")
+            if not (fcm and j == 0) and abs(got_lam[j] - want_lam[j]) > 1e-15 * abs(want_lam[j]):
+                bad.append(f"Lambda[{j}]={got_lam[j]} want {want_lam[j]}")
+    if bad:
+        ctx.mismatch(R5, g, dict(p=p, q=q, K=pr.desc["K"]["kind"], desc=pr.desc), dict(mu=got_mu, Lambda=got_lam),
+                     dict(mu=want_mu, Lambda=want_lam), "constructor slot arithmetic must match Kernel.slotsImp: " + "; ".join(bad[:4]))
+
+
 def run_problem(ctx, g, rng, high_e=False):
     pr = scen.make_problem(rng, n=int(rng.integers(1, 13)))
     N = 6 if not ctx.thorough else 10
@@ -137,6 +171,7 @@ def run_problem(ctx, g, rng, high_e=False):
             paths[which] = np.array(jk.marginal_ln_likelihood(pr.data, packed, in_memory=True))
     # ---- exact twin ----
     hx = kern.exact_helper(pr)
+    slots_vs_lean(ctx, g, pr, c, hx)
     chunk = np.column_stack([phys["P"], phys["e"], phys["omega"], phys["M0"], phys["s"]])
     ll_x = kern.exact_ll(hx, chunk)
     for i in range(N):
